@@ -1,5 +1,17 @@
 -- GENERATED: axiom audit of the property theorems of C29
 import SquidModel.Properties.C29
+#print axioms SquidModel.C29.parse_exact
+#print axioms SquidModel.C29.parse_other_exact
+#print axioms SquidModel.C29.items_wellformed
+#print axioms SquidModel.C29.items_of_joined
+#print axioms SquidModel.C29.flag_present_iff
 #print axioms SquidModel.C29.valid_numeric_exact
+#print axioms SquidModel.C29.numeric_recorded_range
 #print axioms SquidModel.C29.invalid_numeric_absent_counterexample_wrap
 #print axioms SquidModel.C29.invalid_numeric_absent_counterexample_garbage
+#print axioms SquidModel.C29.invalid_numeric_absent_partial
+#print axioms SquidModel.C29.absent_numeric_effect
+#print axioms SquidModel.C29.quoted_list_exact
+#print axioms SquidModel.C29.quoted_pair_counterexample
+#print axioms SquidModel.C29.quoted_pair_counterexample_backslash
+#print axioms SquidModel.C29.quoted_htab_counterexample
